@@ -306,6 +306,23 @@ fn corpus_cases() -> Vec<Case> {
     out
 }
 
+/// Is this a well-formed document with a namespaced <svg> root, inside the domain the round-trip oracle covers?
+pub fn in_passthrough_domain(s: &str) -> bool {
+    if s.contains('\r') {
+        return false;
+    }
+    match sxml::parse_document(s) {
+        Ok(evs) => {
+            let ns = evs.iter().find_map(|e| match e {
+                Ev::Start { name, attrs, .. } => Some(name == "svg" && attrs.iter().any(|(k, v)| k == "xmlns" && v == SVG_NS)),
+                _ => None,
+            });
+            ns == Some(true) && !has_ws_attr(&evs)
+        }
+        Err(_) => false,
+    }
+}
+
 fn has_ws_attr(evs: &[Ev]) -> bool {
     evs.iter().any(|e| matches!(e, Ev::Start { attrs, .. } if attrs.iter().any(|(_, v)| v.contains(['\t', '\n', '\r']))))
 }
@@ -436,6 +453,17 @@ impl Property for C03 {
             Family::random("embedded", tier.n(16_000, 80_000), fam_embedded),
             Family::fixed("corpus", corpus_cases()),
         ]
+    }
+    fn fuzz(&self) -> Option<crate::engine::FuzzSpec<Case>> {
+        fn decode(data: &[u8]) -> Option<Case> {
+            let (k, doc) = crate::fuzzrider::split(data)?;
+            let input = String::from_utf8(doc.to_vec()).ok()?;
+            if !in_passthrough_domain(&input) {
+                return None;
+            }
+            Some(Case { input, cfg: crate::fuzzrider::cfg_table()[k].clone(), embedded: false })
+        }
+        Some(crate::engine::FuzzSpec { target: "c03_roundtrip", secs: 180, decode })
     }
     fn judge(&self, case: &Case, _strict: bool) -> Verdict {
         let parse_in = if case.embedded { sxml::parse_content(&case.input) } else { sxml::parse_document(&case.input) };
